@@ -18,7 +18,7 @@ package golang
 //@ ensures [prop] action == ruler.ActionSignBeaconProposal ==> (forall i int :: 0 <= i && i < len(rulesData) && result[i] == rules.APPROVED ==> hastype(rulesData[i].Data, "*rules.SignBeaconProposalData") && propApproved(rulesData[i].PubKey, unbox(rulesData[i].Data, "*rules.SignBeaconProposalData")))
 //@ ensures [gen] action == ruler.ActionSign ==> (forall i int :: 0 <= i && i < len(rulesData) && result[i] == rules.APPROVED ==> hastype(rulesData[i].Data, "*rules.SignData") && prefix4(unbox(rulesData[i].Data, "*rules.SignData").Domain) != ATT && prefix4(unbox(rulesData[i].Data, "*rules.SignData").Domain) != PROP)
 //@ ensures [distinct] locking(action) ==> (forall i int, j int :: 0 <= i && i < j && j < len(rulesData) && result[i] == rules.APPROVED && result[j] == rules.APPROVED ==> bytes(rulesData[i].PubKey) != bytes(rulesData[j].PubKey))
-//@ ensures [dbframe] forall k Bytes :: (forall i int :: !(0 <= i && i < len(rulesData) && rulesData[i] != nil && ((action == ruler.ActionSignBeaconAttestation && k == attKey(bytes(rulesData[i].PubKey))) || (action == ruler.ActionSignBeaconProposal && k == propKey(bytes(rulesData[i].PubKey)))))) ==> ((k in db) <==> old(k in db)) && db[k] == old(db[k])
+//@ ensures [dbframe] forall k Bytes :: (forall i int :: !(0 <= i && i < len(rulesData) && ((action == ruler.ActionSignBeaconAttestation && k == attKey(bytes(rulesData[i].PubKey))) || (action == ruler.ActionSignBeaconProposal && k == propKey(bytes(rulesData[i].PubKey)))))) ==> ((k in db) <==> old(k in db)) && db[k] == old(db[k])
 //@ hint-after runRules@1 [heldisdeferred] forall k [48]byte :: deferred()[k] <==> held[k]
 //@ loop #1
 //@ invariant [range] 0 <= _n && _n <= len(rulesData) && len(results) == len(rulesData) && fresh(results)
@@ -118,6 +118,7 @@ package golang
 
 //@ func (*Service).runRulesForMultipleBeaconAttestations
 //@ requires s != nil && s.rules != nil
+//@ requires [wellformed] forall j int :: 0 <= j && j < len(rulesData) && rulesData[j] != nil ==> wellformedData(ruler.ActionSignBeaconAttestation, rulesData[j])
 //@ requires [nonnil] forall j int :: 0 <= j && j < len(rulesData) ==> rulesData[j] != nil
 //@ requires [distinct] forall j int, k int :: 0 <= j && j < k && k < len(rulesData) ==> bytes(rulesData[j].PubKey) != bytes(rulesData[k].PubKey)
 //@ modifies db
